@@ -87,6 +87,26 @@ func directionUpdaterRule(p *Prog, r *Report, rule string, mods map[string]bool,
 			*out = append(*out, v)
 		}
 		n := 0
+		fieldClasses := map[string]map[string]bool{}
+		fieldPos := map[string]*ssa.Store{}
+		defer func(fn *ssa.Function) {
+			// both directions for every updated field: the flag selects between +amount and -amount
+			// of ONE total (a subtract branch that works on a sibling field leaves this one without it)
+			var fs []string
+			for f := range fieldClasses {
+				fs = append(fs, f)
+			}
+			sort.Strings(fs)
+			for _, f := range fs {
+				r.Instance(rule)
+				construct := fmt.Sprintf("%s %s both directions", fname(fn), f)
+				if fieldClasses[f]["Add"] && fieldClasses[f]["Sub"] {
+					r.OK(rule, construct, "increase and decrease of the same field", p.instrPos(fieldPos[f]))
+				} else {
+					r.Fail(rule, construct, "only one direction of the flag updates this total (the other direction is applied to a different field): increases and decreases of one quantity are booked on two different totals", p.instrPos(fieldPos[f]), nil)
+				}
+			}
+		}(fn)
 		for _, b := range fn.Blocks {
 			for _, in := range b.Instrs {
 				st, ok := in.(*ssa.Store)
@@ -165,6 +185,13 @@ func directionUpdaterRule(p *Prog, r *Report, rule string, mods map[string]bool,
 					}
 				}
 				sort.Strings(others)
+				for c := range classes {
+					if fieldClasses[tn+"."+field] == nil {
+						fieldClasses[tn+"."+field] = map[string]bool{}
+						fieldPos[tn+"."+field] = st
+					}
+					fieldClasses[tn+"."+field][c] = true
+				}
 				if len(others) == 0 && (classes["Add"] || classes["Sub"]) {
 					r.OK(rule, construct, "stores the field plus / minus the amount parameter", p.instrPos(st))
 				} else {
@@ -535,3 +562,37 @@ func reserveSideRule(p *Prog, r *Report, rule string, floor int) {
 		}
 	}
 }
+
+// ignoredIDParamRule: a keeper function uses every identifier it is given. An id parameter
+// that is never read means some lookup that should use it uses another id (the usual
+// copy-and-paste slip `asset2 := GetAsset(id1)`).
+func ignoredIDParamRule(p *Prog, r *Report, rule string, mods map[string]bool, floor int) {
+	r.Rule(rule, "no uint64 id parameter of a keeper function is ignored", floor)
+	for _, fn := range p.Funcs {
+		if !mods[moduleOf(fn)] || p.isAuxFn(fn) || len(fn.Blocks) == 0 || fn.Signature.Recv() == nil || !strings.HasSuffix(fnPkgPath(fn), "/keeper") || fn.Synthetic != "" {
+			continue
+		}
+		if namedTypeName(derefAll(fn.Signature.Recv().Type())) != "Keeper" {
+			continue // interface-shaped servers (msgServer, queryServer) must keep their signatures
+		}
+		for _, pr := range fn.Params {
+			if !isUint64(pr.Type()) || pr.Name() == "_" || pr.Name() == "" {
+				continue
+			}
+			r.Instance(rule)
+			construct := fmt.Sprintf("%s parameter %s", fname(fn), pr.Name())
+			if pr.Referrers() != nil && len(*pr.Referrers()) > 0 {
+				r.OK(rule, construct, "used", p.pos(fn.Pos()))
+				continue
+			}
+			if why, ok := ignoredParamOK[construct]; ok {
+				r.Note("%s exception %s: %s", rule, construct, why)
+				continue
+			}
+			r.FuncsSeen[fname(fn)] = true
+			r.Fail(rule, construct, "the function never reads this id: a record that should be looked up under it is looked up under another id", p.pos(fn.Pos()), nil)
+		}
+	}
+}
+
+var ignoredParamOK = map[string]string{}
